@@ -23,6 +23,12 @@ package main
 //        partials = <id>:<ulidMs>:<lm>,<lm>,…:<iterFails>;…   partial blocks (no meta.json): ULID time, LastModified of
 //                   their objects, whether the attribute listing fails; markedIds = ids passed as deletionMarkBlocks
 //        answer: deleted=<ids ascending>           (blocks for which block.Delete was started)
+//   c32.hist <nowMs> <delayMs> <nblocks> <steps>
+//        ONE long-lived MetaFetcher + IgnoreDeletionMarkFilter(delay/2) + BlocksCleaner(delay), wired as cmd/thanos/compact.go
+//        does, over a bucket with the complete blocks 1..nblocks; steps (all inside one clock window):
+//          m:<id>:<deletionTimeSec>  write deletion-mark.json (overwrite)      u:<id>  block.RemoveMark
+//          s  a metadata sync (Fetch)                                           i       compactor iteration: Fetch + DeleteMarkedBlocks
+//        answer: i[<deleted ids>] … => <id>[:<markSec>] …
 //   o.c32.e2e                                 (recorded, not asserted) a block whose Delete was interrupted after meta.json —
 //        no meta.json, deletion-mark.json still there, untouched for 3 days — goes through the real MetaFetcher +
 //        IgnoreDeletionMarkFilter and then BestEffortCleanAbortedPartialUploads(partial, filter.DeletionMarkBlocks()):
@@ -36,6 +42,8 @@ package main
 //   deleted-before-delay        cleaner deleted a block whose mark age ≤ delete delay
 //   deleted-unmarked            cleaner deleted a block without deletion mark
 //   cleaner-result-mismatch     returned set ≠ blocks actually removed from the bucket
+//   deleted-without-current-mark   (histories) the cleaner deleted a block that has NO deletion mark in the bucket at that moment
+//   deleted-current-mark-young     (histories) … whose CURRENT mark in the bucket is not older than the delay
 //   partial-deleted-young       partial block deleted although untouched for ≤ 48 h
 //   partial-deleted-marked      partial block deleted although passed as marked for deletion
 
@@ -157,6 +165,19 @@ func execC32(c *hlib.Ctx, tok []string) string {
 	if len(tok) == 1 && tok[0] == "o.c32.e2e" {
 		return execC32E2E(c)
 	}
+	if len(tok) == 5 && tok[0] == "c32.hist" {
+		if tok[1] != strconv.FormatInt(c32Now, 10) {
+			return "bad-op"
+		}
+		for attempt := 0; attempt < 8; attempt++ {
+			out, ok := execHist(c, tok[2], tok[3], tok[4])
+			if ok || out == "bad-op" {
+				return out
+			}
+			c.Count("clock-window-missed-retry")
+		}
+		return "clock-unstable"
+	}
 	if len(tok) != 4 {
 		return "bad-op"
 	}
@@ -174,6 +195,8 @@ func execC32(c *hlib.Ctx, tok []string) string {
 			out, ok = execClean(c, tok[2], tok[3])
 		case "c32.partial":
 			out, ok = execPartial(c, tok[2], tok[3])
+		case "c32.hist":
+			out, ok = "bad-op", false
 		default:
 			return "bad-op"
 		}
@@ -412,6 +435,139 @@ func execClean(c *hlib.Ctx, delayS, marksS string) (string, bool) {
 	return idsAnswer("deleted", deleted), true
 }
 
+// ------------------------------------------------------------------ histories of one filter + cleaner
+
+func execHist(c *hlib.Ctx, delayS, nS, stepsS string) (string, bool) {
+	delayMs, e1 := strconv.ParseInt(delayS, 10, 64)
+	n, e2 := strconv.Atoi(nS)
+	if e1 != nil || e2 != nil || delayMs < 0 || n < 1 || n > 50 {
+		return "bad-op", false
+	}
+	type hs struct {
+		kind string
+		id   int
+		t    int64
+	}
+	var steps []hs
+	for _, t := range hlib.Split(stepsS, ";") {
+		p := strings.Split(t, ":")
+		switch {
+		case len(p) == 3 && p[0] == "m":
+			id, e1 := strconv.Atoi(p[1])
+			ts, e2 := strconv.ParseInt(p[2], 10, 64)
+			if e1 != nil || e2 != nil || id < 1 || id > n {
+				return "bad-op", false
+			}
+			steps = append(steps, hs{"m", id, ts})
+		case len(p) == 2 && p[0] == "u":
+			id, e1 := strconv.Atoi(p[1])
+			if e1 != nil || id < 1 || id > n {
+				return "bad-op", false
+			}
+			steps = append(steps, hs{"u", id, 0})
+		case len(p) == 1 && (p[0] == "s" || p[0] == "i"):
+			steps = append(steps, hs{kind: p[0]})
+		default:
+			return "bad-op", false
+		}
+	}
+	ctx := context.Background()
+	logger := log.NewNopLogger()
+	base := alignClock()
+	delta := base - c32Base
+	bkt := objstore.NewInMemBucket()
+	for i := 1; i <= n; i++ {
+		putCompleteBlock(bkt, testULID(i))
+	}
+	ins := objstore.WithNoopInstr(bkt)
+	delay := time.Duration(delayMs) * time.Millisecond
+	filter := block.NewIgnoreDeletionMarkFilter(logger, ins, delay/2, 4)
+	mf, err := block.NewMetaFetcher(logger, 4, ins, block.NewConcurrentLister(logger, ins), "", nil, []block.MetadataFilter{filter})
+	must2(err)
+	counter := prometheus.NewCounter(prometheus.CounterOpts{Name: "x"})
+	cleaner := compact.NewBlocksCleaner(logger, bkt, filter, delay, counter, counter)
+	markOf := func(id ulid.ULID) (int64, bool) {
+		b, ok := bkt.Objects()[path.Join(id.String(), metadata.DeletionMarkFilename)]
+		if !ok {
+			return 0, false
+		}
+		var dm metadata.DeletionMark
+		if json.Unmarshal(b, &dm) != nil {
+			return 0, false
+		}
+		return dm.DeletionTime, true
+	}
+	var parts []string
+	for _, st := range steps {
+		switch st.kind {
+		case "m":
+			id := testULID(st.id)
+			if blockObjects(bkt, id) == 0 {
+				continue // the block is gone: nothing to mark (the model drops it as well)
+			}
+			b, _ := json.Marshal(metadata.DeletionMark{ID: id, Version: 1, DeletionTime: st.t + delta/1000})
+			must2(bkt.Upload(ctx, path.Join(id.String(), metadata.DeletionMarkFilename), bytes.NewReader(b)))
+			c.Count("hist:mark")
+		case "u":
+			must2(block.RemoveMark(ctx, logger, bkt, testULID(st.id), counter, metadata.DeletionMarkFilename))
+			c.Count("hist:unmark")
+		case "s":
+			_, _, err := mf.Fetch(ctx)
+			must2(err)
+			c.Count("hist:sync")
+		case "i":
+			_, _, err := mf.Fetch(ctx)
+			must2(err)
+			// the marks in the bucket at the moment of cleaning
+			type cur struct {
+				t  int64
+				ok bool
+			}
+			before := map[int]cur{}
+			present := map[int]bool{}
+			for i := 1; i <= n; i++ {
+				t, ok := markOf(testULID(i))
+				before[i] = cur{t, ok}
+				present[i] = blockObjects(bkt, testULID(i)) > 0
+			}
+			_, err = cleaner.DeleteMarkedBlocks(ctx)
+			must2(err)
+			after := time.Now()
+			var del []int
+			for i := 1; i <= n; i++ {
+				if present[i] && blockObjects(bkt, testULID(i)) == 0 {
+					del = append(del, i)
+					cm := before[i]
+					if !cm.ok {
+						c.Violation("deleted-without-current-mark", fmt.Sprintf("block %d deleted by the cleaner; it has no deletion mark in the bucket (the filter still held a mark that was removed)", i))
+					} else if age := after.Sub(time.Unix(cm.t, 0)); age <= delay {
+						c.Violation("deleted-current-mark-young", fmt.Sprintf("block %d deleted; its current deletion mark is %v old ≤ delay %v", i, age, delay))
+					}
+				}
+			}
+			parts = append(parts, "i["+strings.TrimPrefix(idsAnswer("i", del), "i=")+"]")
+			c.Count("hist:iterate")
+			c.Count(fmt.Sprintf("hist:deleted:%d", min(len(del), 5)))
+		}
+	}
+	if _, ok := windowOK(base); !ok {
+		return "", false
+	}
+	var rest []string
+	for i := 1; i <= n; i++ {
+		id := testULID(i)
+		if blockObjects(bkt, id) == 0 {
+			continue
+		}
+		if t, ok := markOf(id); ok {
+			rest = append(rest, fmt.Sprintf("%d:%d", i, t-delta/1000))
+		} else {
+			rest = append(rest, strconv.Itoa(i))
+		}
+	}
+	return hlib.Join(parts, " ") + " => " + hlib.Join(rest, " "), true
+}
+
 // ------------------------------------------------------------------ partial uploads
 
 func execPartial(c *hlib.Ctx, markedS, partialsS string) (string, bool) {
@@ -540,6 +696,43 @@ func genC32(c *hlib.Ctx) {
 	pickSub := func() int64 { return c32Subs[r.Intn(len(c32Subs))] }
 	pickSec := func() int64 { return c32Secs[r.Intn(len(c32Secs))] }
 	c.Do("o.c32.e2e", true)
+	// ---- histories over one long-lived filter + cleaner
+	{
+		delays := []int64{10000, 172800000, 10900}
+		old := func(delayMs int64) int64 { return c32Base/1000 - delayMs/1000 - int64(r.Range(1, 40)) }   // mark older than the delay
+		young := func(delayMs int64) int64 { return c32Base/1000 - delayMs/1000 + int64(r.Range(1, 40)) } // younger
+		for i := 0; i < c.N(12, 300); i++ {
+			d := delays[r.Intn(3)]
+			n := r.Range(1, 4)
+			var st []string
+			switch {
+			case i%6 == 0: // mark old, sync, mark removed, iteration
+				st = []string{fmt.Sprintf("m:1:%d", old(d)), "s", "u:1", "i", "i"}
+			case i%6 == 1: // mark old, sync, re-marked young, iteration
+				st = []string{fmt.Sprintf("m:1:%d", old(d)), "s", "u:1", fmt.Sprintf("m:1:%d", young(d)), "i", "s", "i"}
+			case i%6 == 2: // mark young, iterations, then replaced by an old one
+				st = []string{fmt.Sprintf("m:1:%d", young(d)), "i", fmt.Sprintf("m:1:%d", old(d)), "i"}
+			default:
+				for j := r.Range(3, 9); j > 0; j-- {
+					id := r.Range(1, n)
+					switch r.Intn(6) {
+					case 0:
+						st = append(st, fmt.Sprintf("m:%d:%d", id, old(d)))
+					case 1:
+						st = append(st, fmt.Sprintf("m:%d:%d", id, young(d)))
+					case 2:
+						st = append(st, fmt.Sprintf("u:%d", id))
+					case 3:
+						st = append(st, "s")
+					default:
+						st = append(st, "i")
+					}
+				}
+				st = append(st, "i")
+			}
+			c.Do(fmt.Sprintf("c32.hist %d %d %d %s", c32Now, d, n, strings.Join(st, ";")), true)
+		}
+	}
 	rounds := c.N(25, 400)
 	for round := 0; round < rounds; round++ {
 		// ---- retention: three "recent" resolutions with fixed retention, ancient blocks with shifted retention
